@@ -92,6 +92,54 @@ pub(crate) fn pool(ty: &str, rng: &mut Rng, extra: usize) -> Vec<DataValue> {
     v
 }
 
+/// Values made the way SQL makes them - by parsing a literal. The texts go beyond what the pools above hold (fractions of a
+/// second, exponents, trailing zeros, unusual units); a text the type rejects denotes no value and is skipped, one it accepts
+/// joins the pool, so that every law and the print -> parse round trip are checked on it.
+fn literal_values(ty: &str, accepted: &mut u64, rejected: &mut u64) -> Vec<DataValue> {
+    let texts: &[&str] = match ty {
+        "timestamp" => &[
+            "2001-02-03 04:05:06.1", "2001-02-03 04:05:06.12", "2001-02-03 04:05:06.123", "2001-02-03 04:05:06.1234",
+            "2001-02-03 04:05:06.12345", "2001-02-03 04:05:06.123456", "2001-02-03 04:05:06.000001", "2001-02-03 04:05:06.999999",
+            "1969-12-31 23:59:59.999999", "1969-12-31 23:59:59.5", "2001-02-03 04:05:06.100", "2001-02-03T04:05:06", "2001-02-03 04:05",
+            "2001-02-03", "0001-01-01 00:00:00", "9999-12-31 23:59:59", "2001-02-03 04:05:06.1234567",
+        ],
+        "timestamptz" => &[
+            "2001-02-03 04:05:06.1 +00:00", "2001-02-03 04:05:06.123 +00:00", "2001-02-03 04:05:06.1234 +00:00",
+            "2001-02-03 04:05:06.123456 +00:00", "2001-02-03 04:05:06.000001 +08:00", "1969-12-31 23:59:59.999999 +00:00",
+            "1969-12-31 23:59:59.5 -05:00", "2001-02-03 04:05:06 +05:30", "2001-02-03 04:05:06.123456+00", "2001-02-03 04:05:06Z",
+        ],
+        "interval" => &[
+            "1.5 seconds", "0.001 seconds", "0.0001 seconds", "1 millisecond", "1500 milliseconds", "1 microsecond", "1 second 1 millisecond",
+            "1 week", "1.5 hours", "-1.5 seconds", "1 day -1 second", "100 hours", "1 year 1 month 1 day 1 hour 1 minute 1 second",
+        ],
+        "date" => &["2000-1-1", "2000-01-01", "0001-01-01", "9999-12-31", "2000-02-29", "20000101", "0001-01-01 BC", "2000-01-01 BC"],
+        "decimal" => &["1e2", "1E-2", "1.000", "0.10", "-0.0", "+1.5", ".5", "5.", "00012.50", "1_000"],
+        "float64" => &["1e-7", "1e21", "1e22", "0.30000000000000004", "1e400", "-1e400", "inf", "-inf", "nan", "NaN", "5e-324", "1.7976931348623157e308", ".5", "5."],
+        "int32" => &["+7", "007", " 7", "7 ", "-0", "1e2"],
+        "int64" => &["+7", "007", "-0"],
+        "bool" => &["t", "f", "TRUE", "False", "1", "0", "yes", "no"],
+        "blob" => &["\\x", "\\x00ff", "\\xAAFF", "abc", "a\\\\b"],
+        _ => &[],
+    };
+    let dt = crate::lab::data_type(ty);
+    let mut out = vec![];
+    for t in texts {
+        let s = ArrayImpl::from(&DataValue::String((*t).into()));
+        match std::panic::catch_unwind(std::panic::AssertUnwindSafe(|| s.cast(&dt))) {
+            Ok(Ok(arr)) if !arr.get(0).is_null() => {
+                *accepted += 1;
+                out.push(arr.get(0));
+            }
+            Ok(_) => *rejected += 1,
+            Err(_) => {
+                crate::sqlrun::drain_panics();
+                *rejected += 1;
+            }
+        }
+    }
+    out
+}
+
 fn data_type(ty: &str, v: &DataValue) -> DataType {
     match ty {
         "vector" => v.data_type(),
@@ -126,12 +174,14 @@ pub fn main(args: &[String]) -> i32 {
     let mut pairs = 0u64;
     let mut roundtrips = 0u64;
     let mut kernel_pairs = 0u64;
+    let (mut lit_accepted, mut lit_rejected) = (0u64, 0u64);
     let mut per_type: BTreeMap<String, u64> = BTreeMap::new();
     let mut add = |sig: String, what: String, violations: &mut BTreeMap<String, Value>| {
         violations.entry(sig.clone()).or_insert(json!({"signature": sig, "what": what}));
     };
     for ty in TYPES {
-        let p = pool(ty, &mut rng, if *ty == "bool" { 0 } else { extra });
+        let mut p = pool(ty, &mut rng, if *ty == "bool" { 0 } else { extra });
+        p.extend(literal_values(ty, &mut lit_accepted, &mut lit_rejected));
         *per_type.entry(ty.to_string()).or_default() += p.len() as u64;
         // ---- laws
         for a in &p {
@@ -245,6 +295,7 @@ pub fn main(args: &[String]) -> i32 {
     println!(
         "{}",
         json!({"triples": triples, "pairs": pairs, "kernel_pairs": kernel_pairs, "roundtrips": roundtrips, "pool_sizes": per_type,
+               "literal_texts_accepted": lit_accepted, "literal_texts_rejected": lit_rejected,
                "violations": violations.values().collect::<Vec<_>>()})
     );
     if violations.is_empty() { 0 } else { 1 }
